@@ -62,6 +62,10 @@ PROGRAMS = [
     ("only_ws_doc", 'def f(a):\n    """   """\n    return a\n'),
     ("nested", 'def f(a):\n    """Outer.\n\n    :param a: the a\n    """\n    def g(b):\n        """Inner.\n\n        :param b: the b\n        """\n        return b\n    return g(a)\n'),
     ("async", 'async def f(a):\n    """Summary.\n\n    :param a: the a\n    """\n    return a\n'),
+    # more defaults than parameters the parser keeps: positional-only parameters with defaults; a first parameter *named* like a receiver that has a default
+    ("posonly_defaults", 'def clamp(value=0, low=0, /, high=1):\n    """Summary.\n\n    :param high: the high\n    """\n    return value\n'),
+    ("receiver_named_default", 'def classify(cls=0, score=0.5):\n    """Summary.\n\n    :param score: the score\n    """\n    return cls\n'),
+    ("receiver_named_default_nodoc", 'def classify(self=None, score=0.5, *, flag=False):\n    return score\n'),
 ]
 
 
